@@ -56,6 +56,11 @@ def check(ctx: Ctx) -> None:
     from .c09 import r3 as c09_r3
     ctx.shared(c09_r3, "C09.R3", "C01.R12", "an unsanctioned deleter can remove the metadata / manifest / data files of an acknowledged commit")
     r13(ctx)
+    # a retried conditional PUT mistakes its own first attempt for a conflict (or a foreign one for its own success)
+    from .c20 import r3 as c20_r3
+    ctx.shared(c20_r3, "C20.R3", "C01.R14", "the conditional pointer PUT is never retried")
+    from .c08 import r9_cas_capability_consistent
+    r9_cas_capability_consistent(ctx, "C01.R15")
 
 
 def r13(ctx: Ctx) -> None:
